@@ -19,7 +19,7 @@ from checks import bobbuild_common as bc
 from checks.c05_abort import select, ACTIONS
 
 PROP = "C01"
-WEAK = ["NoPruneOnDigestChange", "DigestIgnoresVars", "InputsIgnoreDep", "PrepIgnoresDigest", "ImportKeepsOld"]
+WEAK = ["NoPruneOnDigestChange", "DigestIgnoresVars", "InputsIgnoreDep", "PrepIgnoresDigest", "ImportKeepsOld", "DigestIgnoresTool"]
 
 
 def replay_task(arg):
